@@ -39,6 +39,12 @@ func (m *Mon) checkStep(sc *StepCtx) {
 
 func eqInt(a *big.Int, b *big.Int) bool { return a.Cmp(b) == 0 }
 
+// abandonedAtRestart: a context that has no batch left to issue when the chain restarts.
+func abandonedAtRestart(rc types.RequestContext) bool {
+	return rc.State == types.COMPLETED || (!rc.Repeated && rc.BatchCounter >= 1) ||
+		(rc.Repeated && rc.RepeatedTotal > 0 && int64(rc.BatchCounter) >= rc.RepeatedTotal)
+}
+
 // createdByModule: the module that created the context, as the harness saw it at creation -
 // the stored field is what is being checked, so it cannot be the only witness (a zero-height
 // restart that drops it would otherwise hand the context to its consumer).
@@ -427,7 +433,18 @@ func (m *Mon) stepC03C04(sc *StepCtx, si stepInfo) {
 		if fail[bk] == 0 && (sc.IsBlock() || si.respond != nil) {
 			m.hit("C04", "no-failure-no-slash", cls)
 			if !sameProto(&pb, &b) {
-				m.fail(sc, "C04", "no-failure-no-slash", "record@"+cls, "binding %q changed in %s although none of its requests failed", bk, sc.Step.Desc)
+				// one change is compatible with every statement: a binding that holds less than the
+				// minimum for its price (C14) may be taken out of service whenever that is noticed
+				under := false
+				if op, err := ParsePricingText(b.Pricing); err == nil {
+					under = bi(coinsAmt(b.Deposit)).Cmp(MinDeposit(pre.Params, op)) < 0
+				}
+				nb := pb
+				nb.Available, nb.DisabledTime = b.Available, b.DisabledTime
+				onlyDisabled := b.Available && !pb.Available && sameProto(&nb, &b)
+				if !(under && onlyDisabled) {
+					m.fail(sc, "C04", "no-failure-no-slash", "record@"+cls, "binding %q changed in %s although none of its requests failed", bk, sc.Step.Desc)
+				}
 			}
 		}
 	}
@@ -1798,7 +1815,14 @@ func (m *Mon) stepRestart(sc *StepCtx, si stepInfo) {
 	for id, a := range pre.Contexts {
 		b, ok := post.Contexts[id]
 		if !ok {
-			m.fail(sc, "C19", "import-complete", "context-lost@restart", "context %.16s is lost by a zero-height restart", id)
+			// a context with nothing left to do (killed, a one-shot whose batch was issued, a repeated
+			// one at its total) may be dropped by the preparation: the statements only say what
+			// becomes of the contexts that are left
+			if !abandonedAtRestart(a) {
+				m.fail(sc, "C19", "import-complete", "context-lost@restart", "context %.16s is lost by a zero-height restart", id)
+			} else if t := m.ctxs[id]; t != nil {
+				t.Gone = true
+			}
 			continue
 		}
 		m.hit("C09", "survives-restart", fmt.Sprintf("from-%s/c%d", a.State, minInt(int(a.BatchCounter), 3)))
